@@ -20,6 +20,7 @@ use verif_harness::util::*;
 
 const IMPORT_ALL: &str = "import \"pe\" import \"elf\" import \"macho\" import \"dotnet\" import \"lnk\" import \"dex\" import \"crx\" import \"olecf\" import \"msi\" import \"vba\" import \"zip\" import \"hash\" import \"math\"\nrule always { condition: true }\nrule pe_ep { condition: pe.is_pe and pe.entry_point >= 0 }\nrule elf_n { condition: elf.number_of_sections >= 0 }\nrule zip_n { condition: zip.is_zip and for any e in zip.entries : (e.uncompressed_size >= 0) }\n";
 
+fn rss_kb() -> u64 { std::fs::read_to_string("/proc/self/statm").ok().and_then(|s| s.split(' ').nth(1).and_then(|x| x.parse::<u64>().ok())).map_or(0, |p| p * 4) }
 fn fnv64(b: &[u8]) -> u64 { let mut h = 0xcbf29ce484222325u64; for x in b { h ^= *x as u64; h = h.wrapping_mul(0x100000001b3); } h }
 
 // ---------------------------------------------------------------- child
@@ -43,21 +44,19 @@ fn child() -> i32 {
         inp.read_exact(&mut data).unwrap();
         { let mut o = out.lock(); writeln!(o, "BEGIN {}", idx).unwrap(); o.flush().unwrap(); }
         let t0 = Instant::now();
+        let rss0 = rss_kb();
         let r = catch(AssertUnwindSafe(|| {
             let a = yara_x::mods::invoke_all(&data);
             let t_first = t0.elapsed();
-            let da = format!("{:?}", a);
+            let rss_grow = rss_kb().saturating_sub(rss0);
+            // no Debug rendering of the message: it is several times larger than the message itself
+            struct Da; impl Da { fn len(&self) -> usize { 0 } }
+            let da = Da;
             // hopelessly over the time bound already: do not repeat the call four more times
             if t_first.as_micros() > 4_000_000 + 60 * data.len() as u128 {
-                return (true, true, true, da.len() as u64, da.len(), t_first, String::new(), "skipped-after-slow-first-call".to_string());
+                return (true, true, true, da.len() as u64, da.len(), t_first, String::new(), "skipped-after-slow-first-call".to_string(), rss_grow);
             }
             let b = yara_x::mods::invoke_all(&data);
-            let db = format!("{:?}", b);
-            if std::env::var("C11_DIFF").is_ok() && da != db {
-                let i = da.bytes().zip(db.bytes()).position(|(x, y)| x != y).unwrap_or(da.len().min(db.len()));
-                let lo = i.saturating_sub(300);
-                eprintln!("DIFF idx={} at {}: A=...{}\n   B=...{}", idx, i, &da[lo..(i + 200).min(da.len())], &db[lo..(i + 200).min(db.len())]);
-            }
             let same2 = *a == *b; // PartialEq: map fields compare as maps (their Debug order is per-instance)
             let d2 = data.clone();
             let dc = std::thread::Builder::new().stack_size(8 << 20).spawn(move || yara_x::mods::invoke_all(&d2)).unwrap().join();
@@ -88,13 +87,41 @@ fn child() -> i32 {
                         pairs.iter().map(|(r, o)| format!("{}:{}", r, o.map_or("-".to_string(), |x| x.to_string()))).collect::<Vec<_>>().join(","));
                 }
             }
-            (same2, same3, s1 == s2 && !s1.starts_with("ERR"), da.len() as u64, da.len(), t_first, pe_line, s1)
+            // PE overlay: sections' raw ranges, file length, reported overlay
+            if let Some(pe) = a.pe.as_ref() {
+                if pe.is_pe.unwrap_or(false) {
+                    if let Some(ov) = pe.overlay.as_ref() {
+                        if !pe_line.is_empty() { pe_line.push('\n'); }
+                        pe_line.push_str(&format!("OV {} {} {} {} {}", idx, data.len(), ov.offset.unwrap_or(0), ov.size.unwrap_or(0),
+                            pe.sections.iter().map(|s| format!("{}:{}", s.raw_data_offset.unwrap_or(0), s.raw_data_size.unwrap_or(0))).collect::<Vec<_>>().join(",")));
+                    }
+                }
+            }
+            // ELF: entry point conversion on the segments / sections of the same file
+            if let Some(elf) = a.elf.as_ref() {
+                if data.len() >= 0x40 && data.starts_with(b"\x7fELF") && elf.type_.is_some() {
+                    let is64 = data[4] == 2; let le = data[5] == 1;
+                    let rd = |o: usize, n: usize| -> u64 { let mut v = 0u64; for i in 0..n { let b = data[o + if le { n - 1 - i } else { i }] as u64; v = (v << 8) | b; } v };
+                    let entry = if is64 { rd(0x18, 8) } else { rd(0x18, 4) };
+                    let shnum = if is64 { rd(0x3c, 2) } else { rd(0x30, 2) };
+                    if entry != 0 && shnum < 0xff00 {
+                        use yara_x::mods::elf::Type;
+                        let exe = matches!(elf.type_.unwrap().enum_value(), Ok(Type::ET_EXEC) | Ok(Type::ET_DYN));
+                        if !pe_line.is_empty() { pe_line.push('\n'); }
+                        pe_line.push_str(&format!("ELF {} {} {} {} {} {}", idx, exe as u8, entry, elf.entry_point.map_or("-".to_string(), |x| x.to_string()),
+                            elf.segments.iter().take(40).map(|s| format!("{}:{}:{}", s.offset.unwrap_or(0), s.virtual_address.unwrap_or(0), s.memory_size.unwrap_or(0))).collect::<Vec<_>>().join(","),
+                            elf.sections.iter().take(60).map(|s| format!("{}:{}:{}:{}", s.type_.map_or(0, |t| t.value()), s.address.unwrap_or(0), s.offset.unwrap_or(0), s.size.unwrap_or(0))).collect::<Vec<_>>().join(",")));
+                        if elf.segments.len() > 40 || elf.sections.len() > 60 { pe_line = pe_line.lines().filter(|l| !l.starts_with("ELF ")).collect::<Vec<_>>().join("\n"); }
+                    }
+                }
+            }
+            (same2, same3, s1 == s2 && !s1.starts_with("ERR"), da.len() as u64, da.len(), t_first, pe_line, s1, rss_grow)
         }));
         let mut o = out.lock();
         match r {
-            Ok((same2, same3, scan_ok, h, dl, t_first, pe_line, s1)) => {
+            Ok((same2, same3, scan_ok, h, dl, t_first, pe_line, s1, rss_grow)) => {
                 if !pe_line.is_empty() { writeln!(o, "{}", pe_line).unwrap(); }
-                writeln!(o, "END {} ok {} {} {} {} {} {} {} {}", idx, same2 as u8, same3 as u8, scan_ok as u8, t_first.as_micros(), t0.elapsed().as_micros(), h, dl, s1).unwrap();
+                writeln!(o, "END {} ok {} {} {} {} {} {} {} {} {}", idx, same2 as u8, same3 as u8, scan_ok as u8, t_first.as_micros(), t0.elapsed().as_micros(), h, dl, if s1.is_empty() { "-" } else { &s1 }, rss_grow).unwrap();
             }
             Err(p) => { writeln!(o, "END {} panic {}", idx, p.lines().next().unwrap_or("").replace(' ', "_")).unwrap(); }
         }
@@ -182,7 +209,47 @@ fn rsrc_bomb(e: usize) -> Vec<u8> {
     d
 }
 
-fn build_corpus(samples: &[(String, Vec<u8>)], rng: &mut Rng, n_trunc: usize, n_field: usize, bomb: &[usize]) -> Vec<Input> {
+/// ELF64 with n symbols whose names all start at the same offset of a string
+/// table that holds one l-byte string: every name is read up to the NUL
+fn elf_names_bomb(n: usize, l: usize) -> Vec<u8> {
+    let mut d = b"\x7fELF\x02\x01\x01\x00".to_vec(); d.extend_from_slice(&[0u8; 8]);
+    for (v, w) in [(2u64, 2), (62, 2), (1, 4), (0, 8), (0, 8), (64, 8), (0, 4), (64, 2), (56, 2), (0, 2), (64, 2), (3, 2), (0, 2)] { d.extend_from_slice(&v.to_le_bytes()[..w]); }
+    let sym_off = 64 + 3 * 64; let str_off = sym_off + n * 24;
+    let sh = |typ: u32, off: usize, size: usize, link: u32, d: &mut Vec<u8>| {
+        d.extend_from_slice(&0u32.to_le_bytes()); d.extend_from_slice(&typ.to_le_bytes());
+        for v in [0u64, 0, off as u64, size as u64] { d.extend_from_slice(&v.to_le_bytes()); }
+        d.extend_from_slice(&link.to_le_bytes()); d.extend_from_slice(&0u32.to_le_bytes());
+        for v in [0u64, 24] { d.extend_from_slice(&v.to_le_bytes()); }
+    };
+    d.extend_from_slice(&[0u8; 64]); sh(2, sym_off, n * 24, 2, &mut d); sh(3, str_off, l + 1, 0, &mut d);
+    for _ in 0..n { d.extend_from_slice(&0u32.to_le_bytes()); d.extend_from_slice(&[0x12, 0, 1, 0]); d.extend_from_slice(&0x1000u64.to_le_bytes()); d.extend_from_slice(&8u64.to_le_bytes()); }
+    d.extend(std::iter::repeat(b'A').take(l)); d.push(0);
+    d
+}
+/// Mach-O 64 with LC_DYLD_CHAINED_FIXUPS: n imports whose name offset is 0 in a
+/// symbol pool holding one l-byte string
+fn macho_fixups_bomb(n: usize, l: usize) -> Vec<u8> {
+    let mut d = vec![];
+    for v in [0xfeedfacfu32, 0x01000007, 3, 2, 1, 16, 0, 0] { d.extend_from_slice(&v.to_le_bytes()); }
+    let mut fix = vec![];
+    for v in [0u32, 0, 28, 28 + 4 * n as u32, n as u32, 1, 0] { fix.extend_from_slice(&v.to_le_bytes()); }
+    fix.extend(std::iter::repeat(0u8).take(4 * n)); fix.extend(std::iter::repeat(b'B').take(l)); fix.push(0);
+    for v in [0x80000034u32, 16, 48, fix.len() as u32] { d.extend_from_slice(&v.to_le_bytes()); }
+    d.extend_from_slice(&fix);
+    d
+}
+/// Mach-O 64 with LC_SYMTAB: n nlist_64 entries with n_strx = 0, one l-byte string
+fn macho_symtab_bomb(n: usize, l: usize) -> Vec<u8> {
+    let mut d = vec![];
+    for v in [0xfeedfacfu32, 0x01000007, 3, 2, 1, 24, 0, 0] { d.extend_from_slice(&v.to_le_bytes()); }
+    let symoff = 32 + 24; let stroff = symoff + 16 * n;
+    for v in [2u32, 24, symoff as u32, n as u32, stroff as u32, l as u32 + 1] { d.extend_from_slice(&v.to_le_bytes()); }
+    for _ in 0..n { d.extend_from_slice(&0u32.to_le_bytes()); d.extend_from_slice(&[0x0f, 1, 0, 0]); d.extend_from_slice(&0x1000u64.to_le_bytes()); }
+    d.extend(std::iter::repeat(b'C').take(l)); d.push(0);
+    d
+}
+
+fn build_corpus(samples: &[(String, Vec<u8>)], rng: &mut Rng, n_trunc: usize, n_field: usize, bomb: &[usize], names: &[(usize, usize)]) -> Vec<Input> {
     let mut v: Vec<Input> = vec![];
     v.push(Input { label: "empty".into(), class: "sample", data: vec![] });
     for (name, d) in samples {
@@ -223,6 +290,12 @@ fn build_corpus(samples: &[(String, Vec<u8>)], rng: &mut Rng, n_trunc: usize, n_
         }
     }
     for e in bomb { v.push(Input { label: format!("rsrc-self-reference:e={}", e), class: "self-referential-table", data: rsrc_bomb(*e) }); }
+    // many table entries that share one long NUL-terminated name
+    for (n, l) in names {
+        v.push(Input { label: format!("elf-symbol-names:n={},l={}", n, l), class: "elf-symbol-names", data: elf_names_bomb(*n, *l) });
+        v.push(Input { label: format!("macho-fixups-names:n={},l={}", n, l), class: "macho-fixups-names", data: macho_fixups_bomb(*n, *l) });
+        v.push(Input { label: format!("macho-symtab-names:n={},l={}", n, l), class: "macho-symtab-names", data: macho_symtab_bomb(*n, *l) });
+    }
     v
 }
 
@@ -237,7 +310,7 @@ fn spawn_kid() -> Kid {
 }
 
 #[derive(Default, Clone)]
-struct Res { status: String, same2: bool, same3: bool, scan_ok: bool, t_first_us: u128, t_all_us: u128, hash: u64, pe: Option<String>, detail: String }
+struct Res { rss_kb: u64, status: String, same2: bool, same3: bool, scan_ok: bool, t_first_us: u128, t_all_us: u128, hash: u64, pe: Option<String>, extra: Vec<String>, detail: String }
 
 fn run_one(kid: &mut Option<Kid>, idx: usize, data: &[u8], limit: Duration) -> Res {
     if kid.is_none() { *kid = Some(spawn_kid()); }
@@ -251,10 +324,11 @@ fn run_one(kid: &mut Option<Kid>, idx: usize, data: &[u8], limit: Duration) -> R
         match k.rx.recv_timeout(left) {
             Ok(l) => {
                 if l.starts_with("PE ") { r.pe = Some(l); }
+                else if l.starts_with("OV ") || l.starts_with("ELF ") { r.extra.push(l); }
                 else if let Some(rest) = l.strip_prefix(&format!("END {} ", idx)) {
                     let f: Vec<&str> = rest.split(' ').collect();
                     if f[0] == "ok" { r.status = "ok".into(); r.same2 = f[1] == "1"; r.same3 = f[2] == "1"; r.scan_ok = f[3] == "1";
-                        r.t_first_us = f[4].parse().unwrap_or(0); r.t_all_us = f[5].parse().unwrap_or(0); r.hash = f[6].parse().unwrap_or(0); r.detail = f.get(8).unwrap_or(&"").to_string(); }
+                        r.t_first_us = f[4].parse().unwrap_or(0); r.t_all_us = f[5].parse().unwrap_or(0); r.hash = f[6].parse().unwrap_or(0); r.detail = f.get(8).unwrap_or(&"").to_string(); r.rss_kb = f.get(9).and_then(|x| x.parse().ok()).unwrap_or(0); }
                     else { r.status = "panic".into(); r.detail = f[1..].join(" "); }
                     return r;
                 }
@@ -269,6 +343,53 @@ fn run_one(kid: &mut Option<Kid>, idx: usize, data: &[u8], limit: Duration) -> R
                 r.status = "crash".into(); r.detail = format!("{:?}", st); r.t_all_us = t0.elapsed().as_micros(); return r;
             }
         }
+    }
+}
+
+// ---------------------------------------------------------------- arithmetic cores through the hook
+fn enc_uleb(mut n: u64) -> Vec<u8> { let mut v = vec![]; loop { let b = (n & 0x7f) as u8; n >>= 7; if n == 0 { v.push(b); break; } v.push(b | 0x80); } v }
+fn enc_sleb(mut n: i64) -> Vec<u8> { let mut v = vec![]; loop { let b = (n & 0x7f) as u8; n >>= 7; if (n == 0 && b & 0x40 == 0) || (n == -1 && b & 0x40 != 0) { v.push(b); break; } v.push(b | 0x80); } v }
+fn interesting_u64(rng: &mut Rng) -> u64 {
+    match rng.below(6) { 0 => rng.below(300), 1 => 1u64 << rng.below(64), 2 => (1u64 << rng.below(64)).wrapping_sub(1), 3 => u64::MAX - rng.below(3), 4 => rng.next() >> rng.below(64), _ => rng.next() }
+}
+fn rand_bytes(rng: &mut Rng, max: u64) -> Vec<u8> {
+    let n = rng.below(max + 1) as usize;
+    let style = rng.below(3);
+    (0..n).map(|_| match style { 0 => rng.below(256) as u8, 1 => 0x80 | rng.below(128) as u8, _ => *rng.pick(&[0u8, 1, 0x7f, 0x80, 0xff, 0x40, 0xc0, 0xbf, 0xdf, 0xe0]) }).collect()
+}
+fn core_cases(rng: &mut Rng, n: usize, shards: &mut Shards, stats: &mut Stats) {
+    use yara_x::verif_c11 as hk;
+    let z = |b: &[u8]| format!("{}%Z", coq_list(b, |x| format!("{}", x)));
+    let lres = |r: Result<(i128, usize), &'static str>| match r { Ok((v, c)) => format!("(LOk {} {})", coq_z(v), coq_nat(c)), Err("TooLarge") => "LErrTooLarge".to_string(), Err(_) => "LErrEof".to_string() };
+    for i in 0..n {
+        let (case, core, desc): (String, &str, String) = match i % 8 {
+            0 => { let mut b = if rng.chance(1, 2) { enc_uleb(interesting_u64(rng)) } else { rand_bytes(rng, 13) }; if rng.chance(1, 3) { b.extend(rand_bytes(rng, 3)); }
+                   let r = hk::uleb128(&b).map(|(v, c)| (v as i128, c)); (format!("KUleb {} {}", z(&b), lres(r)), "uleb128", format!("{} -> {:?}", hex(&b), r)) }
+            1 => { let mut b = if rng.chance(1, 2) { enc_sleb(interesting_u64(rng) as i64) } else { rand_bytes(rng, 13) }; if rng.chance(1, 3) { b.extend(rand_bytes(rng, 3)); }
+                   let r = hk::sleb128(&b).map(|(v, c)| (v as i128, c)); (format!("KSleb {} {}", z(&b), lres(r)), "sleb128", format!("{} -> {:?}", hex(&b), r)) }
+            2 => { let b = rand_bytes(rng, 6); let r = hk::dotnet::var_uint(&b);
+                   (format!("KVarU {} {}", z(&b), coq_option(&r, |(v, c)| format!("({}, {})", coq_z(*v as i128), coq_nat(*c)))), "var_uint", format!("{} -> {:?}", hex(&b), r)) }
+            3 => { let b = rand_bytes(rng, 6); let r = hk::dotnet::var_sint(&b);
+                   (format!("KVarS {} {}", z(&b), coq_option(&r, |(v, c)| format!("({}, {})", coq_z(*v as i128), coq_nat(*c)))), "var_sint", format!("{} -> {:?}", hex(&b), r)) }
+            4 => { let nt = 1 + rng.below(22) as usize;
+                   let rows = match rng.below(5) { 0 => rng.below(100) as usize, 1 => (1usize << (16 - rng.below(6))) - 1 + rng.below(3) as usize, 2 => 15000, 3 => 65535 + rng.below(3) as usize, _ => rng.below(70000) as usize };
+                   let b = rand_bytes(rng, 5); let r = hk::dotnet::coded_index(nt, rows, &b);
+                   (format!("KCoded {} {} {} {}", coq_z(nt as i128), coq_z(rows as i128), z(&b), coq_option(&r, |(c, t, x)| format!("({}, {}, {})", coq_nat(*c), coq_z(*t as i128), coq_z(*x as i128)))),
+                    "dotnet_coded_index", format!("ntables={} rows={} {} -> {:?}", nt, rows, hex(&b), r)) }
+            5 => { let rows = *rng.pick(&[0usize, 1, 100, 65534, 65535, 65536, 65537, 1 << 20]); let b = rand_bytes(rng, 5); let r = hk::dotnet::table_index(rows, &b);
+                   (format!("KTblIdx {} {} {}", coq_z(rows as i128), z(&b), coq_option(&r, |(c, x)| format!("({}, {})", coq_nat(*c), coq_z(*x as i128)))),
+                    "dotnet_table_index", format!("rows={} {} -> {:?}", rows, hex(&b), r)) }
+            _ => { let sl = if rng.chance(1, 2) { 2usize } else { 4 };
+                   let total = rng.below(40) as usize;
+                   let mut b: Vec<u8> = (0..total).map(|_| rng.below(256) as u8).collect();
+                   let size: u32 = match rng.below(5) { 0 => total as u32, 1 => (total as u32).wrapping_add(1), 2 => rng.below(6) as u32, 3 => total.saturating_sub(1) as u32, _ => rng.below(70000) as u32 };
+                   if b.len() >= sl { if sl == 2 { b[..2].copy_from_slice(&(size as u16).to_le_bytes()); } else { b[..4].copy_from_slice(&size.to_le_bytes()); } }
+                   let r = hk::lnk::length_data(sl, &b);
+                   let obs = match r { Ok(nb) => format!("(Some (Cores.LTake {}))", coq_z(nb as i128)), Err("TooLarge") => "(Some Cores.LTooLarge)".to_string(), Err("Incomplete") => "(Some Cores.LIncomplete)".to_string(), Err(_) => "None".to_string() };
+                   (format!("KLnk {} {} {}", coq_z(sl as i128), z(&b), obs), "lnk_length_data", format!("size_len={} {} -> {:?}", sl, hex(&b), r)) }
+        };
+        stats.inc(&format!("core:{}", core));
+        shards.push(case, format!("{{\"kind\":\"core\",\"core\":\"{}\",\"case\":{}}}", core, json_str(&desc)));
     }
 }
 
@@ -308,14 +429,16 @@ fn run(args: &[String]) -> i32 {
     let n_trunc = arg_u64(args, "--trunc", 6) as usize;
     let n_field = arg_u64(args, "--fields", 8) as usize;
     let limit_ms = arg_u64(args, "--limit-ms", 20_000);
+    let n_cores = arg_u64(args, "--cores", 600) as usize;
     let bomb: Vec<usize> = arg_val(args, "--bomb").unwrap_or_else(|| "32,64,128".into()).split(',').filter_map(|x| x.parse().ok()).collect();
-    let prelude = "From Coq Require Import List NArith ZArith Bool.\nFrom YV Require Import Modules.Rva Modules.ModCheck.\nImport ListNotations.\n";
+    let prelude = "From Coq Require Import List NArith ZArith Bool.\nFrom YV Require Import Modules.Rva Modules.Leb Modules.Cores Modules.ModCheck.\nImport ListNotations.\n";
     let mut shards = Shards::new(Path::new(&out_dir), prelude, 100);
     let mut rng = Rng::new(seed);
     let mut stats = Stats::default();
     let samples = read_samples(Path::new(&sdir), max_size, max_samples, &mut rng);
     if samples.is_empty() { eprintln!("c11: no samples under {}", sdir); return 2; }
-    let corpus = build_corpus(&samples, &mut rng, n_trunc, n_field, &bomb);
+    let names: Vec<(usize, usize)> = arg_val(args, "--names").unwrap_or_else(|| "200:2000,3000:80000".into()).split(',').filter_map(|x| x.split_once(':')).filter_map(|(a, b)| Some((a.parse().ok()?, b.parse().ok()?))).collect();
+    let corpus = build_corpus(&samples, &mut rng, n_trunc, n_field, &bomb, &names);
     let mut kid: Option<Kid> = None;
     let mut distinct = std::collections::HashSet::new();
     let mut sample_lines = vec![];
@@ -326,15 +449,19 @@ fn run(args: &[String]) -> i32 {
         stats.inc(&format!("status:{}", r.status));
         // wall time of the first invocation: generous affine bound in the input size (supporting test)
         let bound_us: u128 = 4_000_000 + 60 * inp.data.len() as u128;
-        let time_ok = r.status == "ok" && r.t_first_us <= bound_us;
+        // resident memory growth of the first invocation (its result is still alive): affine bound as well
+        let bound_kb: u64 = 256 * 1024 + (256 * inp.data.len() as u64) / 1024;
+        let mem_ok = r.rss_kb <= bound_kb;
+        let time_ok = r.status == "ok" && r.t_first_us <= bound_us && mem_ok;
         let det = r.status == "ok" && r.same2 && r.same3 && r.scan_ok;
         if r.status == "ok" && !det { stats.inc("nondeterministic"); }
         if r.status == "ok" && !time_ok { stats.inc("over_time_bound"); }
         if inp.class == "self-referential-table" { bomb_times.push((inp.data.len(), if r.status == "ok" { r.t_first_us } else { limit_ms as u128 * 1000 })); }
         distinct.insert(r.hash ^ fnv64(inp.label.as_bytes()));
-        let fail = if r.status != "ok" { r.status.clone() } else if !det { "nondeterministic".into() } else if !time_ok { "slow".into() } else { String::new() };
-        let replay = format!("{{\"kind\":\"run\",\"index\":{},\"label\":{},\"class\":\"{}\",\"len\":{},\"status\":\"{}\",\"fail\":\"{}\",\"same_second_call\":{},\"same_other_thread\":{},\"scan_ok\":{},\"t_first_us\":{},\"bound_us\":{},\"detail\":{},\"data_hex_prefix\":\"{}\"}}",
-            idx, json_str(&inp.label), inp.class, inp.data.len(), r.status, fail, r.same2, r.same3, r.scan_ok, r.t_first_us, bound_us, json_str(&r.detail), hex(&inp.data[..inp.data.len().min(64)]));
+        let fail = if r.status != "ok" { r.status.clone() } else if !det { "nondeterministic".into() } else if !mem_ok { "memory".into() } else if !time_ok { "slow".into() } else { String::new() };
+        if r.status == "ok" && !mem_ok { stats.inc("over_memory_bound"); }
+        let replay = format!("{{\"kind\":\"run\",\"index\":{},\"label\":{},\"class\":\"{}\",\"len\":{},\"status\":\"{}\",\"fail\":\"{}\",\"same_second_call\":{},\"same_other_thread\":{},\"scan_ok\":{},\"t_first_us\":{},\"bound_us\":{},\"rss_growth_kb\":{},\"rss_bound_kb\":{},\"detail\":{},\"data_hex_prefix\":\"{}\"}}",
+            idx, json_str(&inp.label), inp.class, inp.data.len(), r.status, fail, r.same2, r.same3, r.scan_ok, r.t_first_us, bound_us, r.rss_kb, bound_kb, json_str(&r.detail), hex(&inp.data[..inp.data.len().min(64)]));
         if !fail.is_empty() {
             // keep the input for replay
             let p = Path::new(&out_dir).join(format!("failing_{}.bin", idx));
@@ -342,6 +469,25 @@ fn run(args: &[String]) -> i32 {
         }
         if sample_lines.len() < 3 && idx % 211 == 7 { sample_lines.push(replay.clone()); }
         shards.push(format!("KRun {} {} {}", coq_bool(r.status == "ok"), coq_bool(det || r.status != "ok"), coq_bool(time_ok || r.status != "ok")), replay);
+        for l in &r.extra {
+            let f: Vec<&str> = l.split(' ').collect();
+            if f[0] == "OV" && f.len() >= 6 {
+                let secs: Vec<(i128, i128)> = f[5].split(',').filter(|x| !x.is_empty()).map(|p| { let (a, b) = p.split_once(':').unwrap(); (a.parse().unwrap(), b.parse().unwrap()) }).collect();
+                stats.inc("core:pe_overlay");
+                shards.push(format!("KOverlay {} {} {} {}", coq_list(&secs, |(o, z)| format!("({}, {})", coq_z(*o), coq_z(*z))), coq_z(f[2].parse().unwrap()), coq_z(f[3].parse().unwrap()), coq_z(f[4].parse().unwrap())),
+                    format!("{{\"kind\":\"core\",\"core\":\"pe_overlay\",\"index\":{},\"label\":{},\"observed\":{}}}", idx, json_str(&inp.label), json_str(l)));
+            } else if f[0] == "ELF" && f.len() >= 7 {
+                let segs: Vec<Vec<i128>> = f[5].split(',').filter(|x| !x.is_empty()).map(|p| p.split(':').map(|x| x.parse().unwrap()).collect()).collect();
+                let secs: Vec<Vec<i128>> = f[6].split(',').filter(|x| !x.is_empty()).map(|p| p.split(':').map(|x| x.parse::<i64>().map(|v| v as i128).or_else(|_| x.parse::<i128>()).unwrap()).collect()).collect();
+                let obs: Option<i128> = if f[4] == "-" { None } else { Some(f[4].parse().unwrap()) };
+                stats.inc("core:elf_rva_to_offset");
+                shards.push(format!("KElf {} {} {} {} {}", coq_bool(f[2] == "1"),
+                        coq_list(&segs, |s| format!("mkPhdr {} {} {}", coq_z(s[0]), coq_z(s[1]), coq_z(s[2]))),
+                        coq_list(&secs, |s| format!("mkShdr {} {} {} {}", coq_z(s[0] & 0xffffffff), coq_z(s[1]), coq_z(s[2]), coq_z(s[3]))),
+                        coq_z(f[3].parse().unwrap()), coq_option(&obs, |x| coq_z(*x))),
+                    format!("{{\"kind\":\"core\",\"core\":\"elf_rva_to_offset\",\"index\":{},\"label\":{},\"observed\":{}}}", idx, json_str(&inp.label), json_str(l)));
+            }
+        }
         if let Some(pl) = &r.pe {
             // PE idx fa sa sections pairs
             let f: Vec<&str> = pl.split(' ').collect();
@@ -356,6 +502,7 @@ fn run(args: &[String]) -> i32 {
             }
         }
     }
+    core_cases(&mut rng, n_cores, &mut shards, &mut stats);
     shards.flush();
     if let Some(mut k) = kid { drop(k.child.stdin.take()); let _ = k.child.wait(); }
     let bt = bomb_times.iter().map(|(l, t)| format!("[{},{}]", l, t)).collect::<Vec<_>>().join(",");
